@@ -29,7 +29,7 @@ def install(ctx):
 def cases(ctx):
     rng = ctx.rng
     for i in range(ctx.n(1400, 5000)):
-        mode = str(rng.choice(["perm", "gauss", "separated", "inverted", "ties", "touching", "ulp", "tiny", "uint", "int8wide", "mixed", "huge", "subnormal", "negzero"]))
+        mode = str(rng.choice(["perm", "gauss", "separated", "inverted", "ties", "touching", "ulp", "tiny", "uint", "int8wide", "mixed", "huge", "subnormal", "negzero", "clustered", "clustered"]))
         npos = int(rng.integers(1, 26))
         nneg = int(rng.integers(1, 26))
         if mode == "tiny":
@@ -50,7 +50,7 @@ def cases(ctx):
                 pos, neg = allv[:npos], allv[npos:]
         elif mode2 == "ties":
             pos, neg, _ = gen.scores(rng, 1, 1, maxn=12, kinds=["lattice", "pool5", "intdtype", "scaled"])
-        elif mode2 in ("uint", "int8wide", "mixed", "huge", "subnormal", "negzero"):
+        elif mode2 in ("uint", "int8wide", "mixed", "huge", "subnormal", "negzero", "clustered"):
             pos, neg, _ = gen.scores(rng, 1, 1, maxn=20, kinds=[{"mixed": "mixed_int_float"}.get(mode2, mode2)])
         elif mode2 == "touching":
             pos, neg, _ = gen.scores(rng, 1, 1, maxn=12, kinds=["touching"])
